@@ -54,6 +54,15 @@ type Script struct {
 	// (x-vf-plan-bin) instead of the first message, so the back-end can act
 	// before it has read anything; every read is an explicit "r" step then.
 	// Client plans of such scripts contain think time: "w<ms>" pauses.
+	// Gzip: the front client compresses what it sends (gRPC / gRPC-web:
+	// grpc-encoding gzip per message, HTTP: Content-Encoding gzip for the
+	// request stream, gzip accepted for the response). Duplex: the client
+	// sends and receives concurrently (one sender, one receiver goroutine).
+	// MsgSize > 0 gives every request message a payload of that many bytes.
+	Gzip    bool `json:"gzip,omitempty"`
+	Duplex  bool `json:"duplex,omitempty"`
+	MsgSize int  `json:"msg_size,omitempty"`
+
 	MetaPlan bool   `json:"meta_plan,omitempty"`
 	Pause    string `json:"pause,omitempty"` // pause class: where the client thinks (open|between|close|all) and how long
 	Fam      string `json:"fam"`             // plan family (structural class used in finding keys)
@@ -61,11 +70,24 @@ type Script struct {
 
 func (s *Script) String() string {
 	meta := ""
+	if s.Gzip {
+		meta += " gzip"
+	}
+	if s.Duplex {
+		meta += fmt.Sprintf(" duplex size=%d", s.MsgSize)
+	}
 	if s.MetaPlan {
-		meta = " plan-in-metadata pause=" + s.Pause
+		meta += " plan-in-metadata pause=" + s.Pause
 	}
 	return fmt.Sprintf("%s/%s n=%d fam=%s server=%s final=%d client=%s md=%s%s", s.Front, s.Shape, s.NMsg, s.Fam,
-		strings.Join(s.Server, ""), s.Final.Code, strings.Join(s.Client, ","), s.MDClass, meta)
+		strings.Join(s.Server, ""), s.Final.Code, clientString(s.Client), s.MDClass, meta)
+}
+
+func clientString(plan []string) string {
+	if len(plan) > 12 {
+		return fmt.Sprintf("%s,...(%d ops)", strings.Join(plan[:6], ","), len(plan))
+	}
+	return strings.Join(plan, ",")
 }
 
 // wire form of the plan inside Chunk.script
@@ -80,6 +102,10 @@ type planWire struct {
 func (s *Script) planJSON() string {
 	b, _ := json.Marshal(planWire{Steps: s.Server, Code: s.Final.Code, Msg: s.Final.Msg, Det: s.Final.Det, BigRep: s.BigRep})
 	return string(b)
+}
+
+func cat3(a, b, c []structure) []structure {
+	return append(append(append([]structure{}, a...), b...), c...)
 }
 
 func rep(step string, n int) []string {
@@ -325,6 +351,29 @@ func metaStructures(front string) []structure {
 	return out
 }
 
+// pipelined enumerates the full-duplex scripts: a bidi echo in which the
+// client keeps sending (its own goroutine) while the replies flow back, with
+// and without compression, so that both directions of the proxy work at the
+// same time for the whole call.
+func pipelined(front string, thorough bool) []structure {
+	type v struct{ n, size int }
+	vars := []v{{96, 8 << 10}}
+	if thorough {
+		vars = []v{{96, 8 << 10}, {32, 32 << 10}, {256, 1 << 10}, {160, 8 << 10}}
+	}
+	var out []structure
+	for _, x := range vars {
+		for _, gz := range []bool{true, false} {
+			for _, f := range []bool{false, true} {
+				sc := Script{Front: front, Shape: "bidi", NMsg: x.n, Server: []string{"p"}, Client: cat(rep("s", x.n), []string{"c"}),
+					Fam: "pipelined", BigReq: -1, BigRep: -1, Duplex: true, Gzip: gz, MsgSize: x.size}
+				out = append(out, structure{sc, f})
+			}
+		}
+	}
+	return out
+}
+
 var msgClasses = []string{"plain", "empty", "escaped", "long"}
 
 func msgOf(class string, code int32) string {
@@ -334,7 +383,9 @@ func msgOf(class string, code int32) string {
 	case "escaped":
 		return fmt.Sprintf("50%% done — ünï\tcode %d; see /a?b=c&d", code)
 	case "long":
-		return strings.Repeat(fmt.Sprintf("failure %d, ", code), 40)
+		// no leading / trailing white space: what HTTP header fields do with
+		// it is the transports' business, not the proxy's
+		return strings.TrimSuffix(strings.Repeat(fmt.Sprintf("failure %d, ", code), 40), ", ")
 	}
 	return fmt.Sprintf("backend failed with code %d", code)
 }
@@ -348,7 +399,7 @@ func drawStatus(rng *rand.Rand, front string) St {
 	return St{Code: code, Msg: msgOf(mc, code), MsgC: mc, Det: rng.Intn(3)}
 }
 
-var mdClasses = []string{"none", "one", "multi", "bin", "mixed", "punct"}
+var mdClasses = []string{"none", "one", "multi", "bin", "mixed", "punct", "bin-ctl", "bin-high", "bin-printable", "empty", "bin-long", "long"}
 
 func drawMD(rng *rand.Rand, class string) []KV {
 	binv := func() []byte {
@@ -362,7 +413,30 @@ func drawMD(rng *rand.Rand, class string) []KV {
 		}
 		return b
 	}
+	rangeBytes := func(lo, hi, n int) []byte {
+		b := make([]byte, n)
+		for i := range b {
+			b[i] = byte(lo + rng.Intn(hi-lo+1))
+		}
+		return b
+	}
 	switch class {
+	case "bin-ctl": // control bytes only
+		return []KV{{"x-vf-c-bin", rangeBytes(0x00, 0x1f, 1+rng.Intn(8))}, {"x-vf-c-bin", []byte{0x0a, 0x0d, 0x00}}}
+	case "bin-high": // DEL and bytes with the high bit set (never valid ASCII)
+		return []KV{{"x-vf-h-bin", rangeBytes(0x7f, 0xff, 1+rng.Intn(8))}, {"x-vf-t", []byte("text")}}
+	case "bin-printable":
+		return []KV{{"x-vf-p-bin", []byte("hello world")}}
+	case "empty":
+		return []KV{{"x-vf-e-bin", []byte{}}, {"x-vf-e", []byte{}}, {"x-vf-f", []byte("after-empty")}}
+	case "bin-long":
+		return []KV{{"x-vf-l-bin", rangeBytes(0x00, 0xff, 1500+rng.Intn(2000))}}
+	case "long":
+		// printable ASCII, no white space at the ends (header field
+		// trimming is the transports' business)
+		v := rangeBytes(0x20, 0x7e, 2000+rng.Intn(2000))
+		v[0], v[len(v)-1] = '<', '>'
+		return []KV{{"x-vf-l", v}}
 	case "one":
 		return []KV{{"x-vf-a", []byte(fmt.Sprintf("v%d", rng.Intn(1000)))}}
 	case "multi":
@@ -406,6 +480,9 @@ func materialise(rng *rand.Rand, st structure) *Script {
 		s.HTTPGet = true
 		s.BigReq = -1
 	}
+	if !s.Duplex && !s.HTTPGet && rng.Intn(4) == 0 {
+		s.Gzip = true
+	}
 	return &s
 }
 
@@ -431,12 +508,22 @@ func statusSpace(front string) []*Script {
 // the budget, plus one status per (code) on each front.
 func Cases(rng *rand.Rand, thorough bool) []*Script {
 	var list []*Script
-	strs := append(structures("grpc"), structures("http")...)
-	metas := append(metaStructures("grpc"), metaStructures("http")...)
+	strs := cat3(structures("grpc"), structures("http"), structures("web"))
+	metas := cat3(metaStructures("grpc"), metaStructures("http"), metaStructures("web"))
+	var pipes []structure
+	for _, f := range []string{"grpc", "web", "http"} {
+		pipes = append(pipes, pipelined(f, thorough)...)
+	}
 	if thorough {
 		// think-time scripts: every structure once
 		for _, st := range metas {
 			list = append(list, materialise(rng, st))
+		}
+		// full-duplex scripts: every structure twice
+		for k := 0; k < 2; k++ {
+			for _, st := range pipes {
+				list = append(list, materialise(rng, st))
+			}
 		}
 		for _, st := range strs {
 			// Plans in which the back-end finishes while the client is still
@@ -451,7 +538,7 @@ func Cases(rng *rand.Rand, thorough bool) []*Script {
 				list = append(list, materialise(rng, st))
 			}
 		}
-		for _, f := range []string{"grpc", "http"} {
+		for _, f := range []string{"grpc", "http", "web"} {
 			sp := statusSpace(f)
 			for _, s := range sp {
 				s.MDClass = mdClasses[rng.Intn(len(mdClasses))]
@@ -472,14 +559,14 @@ func Cases(rng *rand.Rand, thorough bool) []*Script {
 		}
 		byFam[k] = append(byFam[k], st)
 	}
-	const budget = 400
+	const budget = 480
 	for _, k := range fams {
 		g := byFam[k]
 		for i := 0; i < 4; i++ {
 			list = append(list, materialise(rng, g[rng.Intn(len(g))]))
 		}
 	}
-	for _, f := range []string{"grpc", "http"} {
+	for _, f := range []string{"grpc", "http", "web"} {
 		sp := statusSpace(f)
 		per := len(sp) / 16
 		for code := 0; code < 16; code++ {
@@ -488,6 +575,11 @@ func Cases(rng *rand.Rand, thorough bool) []*Script {
 	}
 	for len(list) < budget {
 		list = append(list, materialise(rng, strs[rng.Intn(len(strs))]))
+	}
+	// full-duplex scripts: every structure of the quick variant once (each
+	// front, with and without gzip, OK and failing end)
+	for _, st := range pipes {
+		list = append(list, materialise(rng, st))
 	}
 	// think-time scripts: two per (front, shape, family, pause point), with a
 	// drawn message count, failure flag and pause length, plus a random fill.
@@ -508,7 +600,10 @@ func Cases(rng *rand.Rand, thorough bool) []*Script {
 				fails = append(fails, st)
 			}
 		}
-		list = append(list, materialise(rng, fails[rng.Intn(len(fails))]), materialise(rng, g[rng.Intn(len(g))]))
+		list = append(list, materialise(rng, fails[rng.Intn(len(fails))]))
+		if strings.HasPrefix(k, "grpc/") {
+			list = append(list, materialise(rng, g[rng.Intn(len(g))]))
+		}
 	}
 	return list
 }
